@@ -190,7 +190,8 @@ pub fn schema_cases(si: &gen::SchemaInfo, rng: &mut Rng, thorough: bool, out: &m
         }
         // malformed JSON: truncation, stray token
         let t = v.to_string();
-        let cut = rng.below(t.len().max(1));
+        let mut cut = rng.below(t.len().max(1));
+        while !t.is_char_boundary(cut) { cut -= 1; }
         introspect_case(&format!("{}:policy{}:truncated", si.name, mode), &t[..cut], 20, rng, out);
         introspect_case(&format!("{}:policy{}:garbage", si.name, mode), &format!("{}}}", t), 20, rng, out);
     }
